@@ -2358,7 +2358,8 @@ class ColFn(ColExpr):
     def __init__(self, op: Operator, *args: ColExpr, **kwargs: list[ColExpr | Order]):
         self.op = op
         # While building the expression tree, we have to allow markers.
-        self.args: list[ColExpr] = [wrap_literals(arg, allow_markers=True) for arg in args]
+        # an ordering marker is only allowed as the argument of another marker (it must be at the top of an expression)
+        self.args: list[ColExpr] = [wrap_literals(arg, allow_markers=isinstance(op, Marker)) for arg in args]
         self.context_kwargs = clean_kwargs(**kwargs)
 
         # An id to recognize the expression also after copying / preprocessing. Useful
@@ -2680,7 +2681,7 @@ class Cast(ColExpr):
         if types.is_const(target_type):
             raise TypeError("cannot cast to `const` type")
 
-        self.val = val
+        self.val = wrap_literals(val)
         self.target_type = copy.copy(target_type)
         self.strict = strict
         self._fn_id = uuid.uuid1()
